@@ -18,8 +18,8 @@ RULE = (
     "float64 range (0, -0.0, +-4e-6, 0.5, 1, -12345.678, 1e5, 123456789.125, 1e15, 1e22, 1e73, 1e80, 1e300, 5e-324, "
     "2.5e-7, finite neighbours of the NULL marker (-9999.2567, -9999.2, 9999.25), the default NULL -9999.25 in the index only, NaN outside the index, one all-NaN column); written with "
     "every writer configuration in the k-deviation ball of (version, wrap, fmt, column_fmt, len_numeric_field, spacer, "
-    "lhs_spacer, data_width, mnemonics_header, data_section_header) plus full sub-products, read back with both "
-    "engines; non-trivial = wrapped, or a non-default option, or nc >= 2"
+    "lhs_spacer, data_width, mnemonics_header, data_section_header) plus full sub-products, the object built through the API or obtained by read(mnemonic_case=lower/upper) and given the matrix, read back with both "
+    "engines; the same object edited in place and written again; non-trivial = wrapped, or a non-default option, or nc >= 2"
 )
 ASSUMPTIONS = [
     "float formats that round (%d is excluded: it truncates)",
